@@ -131,7 +131,14 @@ func (d *DistributedEnforcer) ClearPolicySelf(shouldPersist func() bool) error {
 		}
 	}
 
+	d.invalidateMatcherMap()
 	d.model.ClearPolicy()
+	for _, rm := range d.rmMap {
+		_ = rm.Clear()
+	}
+	for _, crm := range d.condRmMap {
+		_ = crm.Clear()
+	}
 
 	return nil
 }
